@@ -111,14 +111,17 @@ pub fn run(outdir: &str, seed: u64, thorough: bool) -> serde_json::Value {
                         Err(e) => st.violation(json!({"kind":"value-of-convertible-type-not-converted","source_type":a.to_string(),"target":tn,"converted_type":img.to_string(),"value":v.to_string(),"error":e,
                             "site": if matches!(v, Value::Float(_)) && tn.contains("integer") { "Base<Float,DataType>::value" } else { "other" }})),
                         Ok(w) => if !img.contains(w) {
-                            st.violation(json!({"kind":"converted-value-outside-converted-type","source_type":a.to_string(),"target":tn,"converted_type":img.to_string(),"value":v.to_string(),"converted_value":w.to_string()}));
+                            let negzero = matches!(v, Value::Float(f) if **f == 0.0 && f.is_sign_negative()) && tn.contains("text");
+                            st.violation(json!({"kind":"converted-value-outside-converted-type","class": if negzero { "negative-zero-into-text" } else { "other" },"source_type":a.to_string(),"target":tn,"converted_type":img.to_string(),"value":v.to_string(),"converted_value":w.to_string()}));
                         }
                     }
                 }
                 for i in 0..vs.len() { for j in (i + 1)..vs.len() {
                     if let (Ok(wi), Ok(wj)) = (&ws[i], &ws[j]) {
                         if vs[i] != vs[j] && wi == wj && a.contains(&vs[i]) && a.contains(&vs[j]) {
-                            let big = |v: &Value| match v { Value::Integer(i) => (**i).unsigned_abs() > (1u64 << 53), _ => false };
+                            // an integer beyond 2^53 anywhere inside the value (some(..), struct fields, list elements)
+                            let big = |v: &Value| { let s = v.to_string(); let mut cur = String::new(); let mut found = false;
+                                for c in s.chars().chain(std::iter::once(' ')) { if c.is_ascii_digit() { cur.push(c); } else { if cur.len() >= 16 { if let Ok(x) = cur.parse::<u128>() { if x > (1u128 << 53) { found = true; } } } cur.clear(); } } found };
                             st.violation(json!({"kind":"conversion-not-injective","source_type":a.to_string(),"target":tn,"values":[vs[i].to_string(), vs[j].to_string()],"converted":wi.to_string(),
                                 "class": if tn.contains("float") && (big(&vs[i]) || big(&vs[j]) || a.to_string().contains("90071992547409") || a.to_string().contains("9223372036854775")) { "integer-above-2p53-into-float" } else { "other" }}));
                         }
